@@ -22,7 +22,10 @@ import (
 )
 
 var protections = []string{"none", "writeKey", "readKey", "both", "readOnly", "disabled", "readOnly+writeKey", "readOnly+both"}
+// wrongkey alternates between an unrelated key, a key that begins with the right one, a prefix of the
+// right one and the right one in another case (all of them wrong).
 var callers = []string{"nokey", "wrongkey", "rightkey"}
+var wrongKeyTurn int
 
 type opdef struct {
 	name  string
@@ -112,7 +115,17 @@ func callerCtx(c string) *core.Context {
 	ctx := drv.Ctx()
 	switch c {
 	case "wrongkey":
-		ctx.WriteKey, ctx.ReadKey = "bad", "bad"
+		wrongKeyTurn++
+		switch wrongKeyTurn % 4 {
+		case 0:
+			ctx.WriteKey, ctx.ReadKey = "bad", "bad"
+		case 1:
+			ctx.WriteKey, ctx.ReadKey = "WK2", "RKRK"
+		case 2:
+			ctx.WriteKey, ctx.ReadKey = "W", "R"
+		case 3:
+			ctx.WriteKey, ctx.ReadKey = "wk", "rk"
+		}
 	case "rightkey":
 		ctx.WriteKey, ctx.ReadKey = "WK", "RK"
 	}
@@ -705,6 +718,15 @@ func sysMatrix(r *rep.Report, e rep.Env) {
 						}
 						if before != after {
 							r.Violate("", fmt.Sprintf("%s through the System was refused (%v) but changed the stored state", o.name, err), wit)
+						}
+						// the refusal is not a one-off: the same caller's next write is refused as well
+						if o.write && p != "readKey" && p != "none" {
+							_, err2 := prot.s.AddFact(callerCtx(c), "S", "after-refusal", `{"a":"second try"}`)
+							r.Count("writes_after_a_refusal", 1)
+							if err2 == nil || prot.raw() != before {
+								wit["second_write_error"] = drv.ErrStr(err2)
+								r.Violate("", fmt.Sprintf("after %s was refused, the same caller's next write was accepted (the refused request switched the protection off)", o.name), wit)
+							}
 						}
 						continue
 					}
